@@ -65,7 +65,7 @@ impl EmmyLuaEmitter {
 
         // Use ["name"] form for field names with special characters
         let formatted_name = if needs_bracket_notation(name) {
-            format!("[\"{}\"]", name)
+            format!("[{}]", lua_string_literal(name))
         } else {
             name.to_string()
         };
@@ -87,10 +87,15 @@ impl EmmyLuaEmitter {
     pub fn write_alias_variant(&mut self, value: &str, description: Option<&str>) {
         match description {
             Some(desc) => {
-                let _ = writeln!(self.output, "---| \"{}\" # {}", value, desc);
+                let _ = writeln!(
+                    self.output,
+                    "---| {} # {}",
+                    lua_string_literal(value),
+                    single_line(desc)
+                );
             }
             None => {
-                let _ = writeln!(self.output, "---| \"{}\"", value);
+                let _ = writeln!(self.output, "---| {}", lua_string_literal(value));
             }
         }
     }
@@ -99,7 +104,7 @@ impl EmmyLuaEmitter {
     pub fn write_alias_type_variant(&mut self, ty: &str, description: Option<&str>) {
         match description {
             Some(desc) => {
-                let _ = writeln!(self.output, "---| {} # {}", ty, desc);
+                let _ = writeln!(self.output, "---| {} # {}", ty, single_line(desc));
             }
             None => {
                 let _ = writeln!(self.output, "---| {}", ty);
@@ -116,6 +121,28 @@ impl EmmyLuaEmitter {
     pub fn finish(self) -> String {
         self.output
     }
+}
+
+/// Quote `value` as a Lua string literal, escaping what would end or break the literal.
+pub fn lua_string_literal(value: &str) -> String {
+    let mut out = String::with_capacity(value.len() + 2);
+    out.push('"');
+    for c in value.chars() {
+        match c {
+            '"' => out.push_str("\\\""),
+            '\\' => out.push_str("\\\\"),
+            '\n' => out.push_str("\\n"),
+            '\r' => out.push_str("\\r"),
+            _ => out.push(c),
+        }
+    }
+    out.push('"');
+    out
+}
+
+/// A description that is written after `#` must stay on the line of its variant.
+fn single_line(text: &str) -> String {
+    text.lines().collect::<Vec<_>>().join(" ")
 }
 
 /// Check if a field name needs bracket notation (contains special characters).
